@@ -42,12 +42,12 @@ func baseSpecs() []*Spec {
 	return []*Spec{
 		{ID: 1, Kind: "key", Key: 0},
 		{ID: 2, Kind: "pn", Signer: 1, Nonce: 1},
-		{ID: 3, Kind: "claim", Signer: 1, PN: 2, CType: "set", Attr: "i0", Val: "s1", Date: 1000},
-		{ID: 4, Kind: "del", Signer: 1, Target: 2, Date: 2000},
+		{ID: 3, Kind: "claim", Signer: 1, PN: 2, CType: "set", Attr: "i0", Val: "s1", Date: 1000 * sec},
+		{ID: 4, Kind: "del", Signer: 1, Target: 2, Date: 2000 * sec},
 		{ID: 5, Kind: "opaque", Nonce: 5, Size: 40},
 		{ID: 6, Kind: "opaque", Nonce: 6, Size: 50},
 		{ID: 7, Kind: "file", Name: 1, Parts: []Part{{'c', 5, 40}, {'c', 6, 50}}},
-		{ID: 8, Kind: "del", Signer: 1, Target: 7, Date: 3000},
+		{ID: 8, Kind: "del", Signer: 1, Target: 7, Date: 3000 * sec},
 	}
 }
 
@@ -69,4 +69,28 @@ func TestExploreRow14_15_16(t *testing.T) {
 	runScript(t, baseSpecs(), "open mem 1", "src 1", "recv 1", "src 4", "recv 4", "src 2", "recv 2", "dump", "obs", "obsr")
 	fmt.Println("---- 16")
 	runScript(t, baseSpecs(), "open mem 1", "src 1", "recv 1", "src 5", "recv 5", "src 6", "recv 6", "src 7", "recv 7", "src 8", "recv 8", "dump", "obs", "obsr")
+}
+
+func TestExploreSameSecond(t *testing.T) {
+	base := 5000 * sec
+	specs := func() []*Spec {
+		return []*Spec{
+			{ID: 1, Kind: "key", Key: 0},
+			{ID: 2, Kind: "pn", Signer: 1, Nonce: 1},
+			{ID: 3, Kind: "claim", Signer: 1, PN: 2, CType: "set", Attr: "i0", Val: "s1", Date: base},
+			{ID: 4, Kind: "claim", Signer: 1, PN: 2, CType: "set", Attr: "i0", Val: "s2", Date: base + 500000000},
+			{ID: 5, Kind: "claim", Signer: 1, PN: 2, CType: "set", Attr: "i0", Val: "s3", Date: base + 550000000},
+			{ID: 6, Kind: "claim", Signer: 1, PN: 2, CType: "set", Attr: "i0", Val: "s4", Date: base + 500000001},
+			{ID: 7, Kind: "claim", Signer: 1, PN: 2, CType: "set", Attr: "i0", Val: "s5", Date: base + 500000001},
+		}
+	}
+	runScript(t, specs(), "open mem 1", "src 1", "recv 1", "src 2", "recv 2", "src 3", "recv 3", "src 4", "recv 4", "src 5", "recv 5", "src 6", "recv 6", "obs", "obsr", "src 7", "recv 7", "obs", "obsr", "dump")
+	fmt.Println("---- reversed")
+	runScript(t, specs(), "open mem 1", "src 1", "recv 1", "src 2", "recv 2", "src 7", "recv 7", "src 6", "recv 6", "src 5", "recv 5", "src 4", "recv 4", "src 3", "recv 3", "obs", "obsr")
+}
+
+func TestPrintWitnesses(t *testing.T) {
+	for _, w := range append(Witnesses(), EqualDateWitness()) {
+		fmt.Printf("WITNESS %s %s\n", w.ID, strings.Join(w.Ops, " ;; "))
+	}
 }
